@@ -137,7 +137,12 @@ def main():
     req = json.load(sys.stdin)
     import dateparser
     from dateparser.date import DateDataParser
-    from dateparser.search import search_dates
+    # dateparser.search is imported only when a history calls it: importing it loads EVERY locale into the process-wide
+    # loader cache, which would hide everything that depends on the order in which locales are first loaded
+
+    def search_dates(*a, **k):
+        from dateparser.search import search_dates as f
+        return f(*a, **k)
     insts = {}
     out = []
     for c in req["calls"]:
